@@ -459,5 +459,62 @@ def r8_node_tables(chk: Check) -> None:
                    "the pointer is passed with another offset: `#/id` is resolved as `#/id` (never found) or `id` (first token lost)", f.loc())
 
 
+def r9_sentinel_identity(chk: Check) -> None:
+    chk.rule("C10.R9", "SENTINEL-IDENTITY(UNRESOLVABLE): 'this value could not be resolved' is ONE object, recognised by identity (`is UNRESOLVABLE`) at every consumer that keeps such a value out of the derived request; so the class is instantiated once, and nothing that may hold the marker goes through a generic copier that makes a NEW instance of it (`copy.deepcopy` / `copy.copy` / pickle) - the repo's own `deepclone` copies dicts and lists only and hands every other object through", floor=6)
+    P = chk.project
+    # identity tests (the consumers)
+    n_tests = 0
+    for fn in P.all_functions():
+        if isinstance(fn.node, ast.Lambda):
+            continue
+        for c in walk_body(fn.node):
+            if isinstance(c, ast.Compare) and len(c.ops) == 1 and isinstance(c.ops[0], (ast.Is, ast.IsNot)) and unparse(c.comparators[0]) == "UNRESOLVABLE":
+                n_tests += 1
+                chk.ok("C10.R9", fn, f"{fn.qualname.partition(':')[2]}: `{unparse(c, 60)}` recognises the marker by identity", "", fn.loc(c))
+    # single instance
+    inst = [(m, c) for m in P.modules.values() for c in ast.walk(m.tree) if isinstance(c, ast.Call) and isinstance(c.func, ast.Name) and c.func.id == "Unresolvable"]
+    cls = P.cls("core/transforms.py:Unresolvable")
+    custom_copy = any(name in cls.methods for name in ("__deepcopy__", "__copy__", "__reduce__", "__reduce_ex__"))
+    chk.decide(len(inst) == 1, "C10.R9", "core/transforms.py:Unresolvable", "the marker class is instantiated once", f"{len(inst)} instantiations: two markers that are not identical", "core/transforms.py")
+    # functions whose result may be the marker (by name, to a fixpoint)
+    maybe: set[str] = set()
+    changed = True
+    while changed:
+        changed = False
+        for fn in P.all_functions():
+            if isinstance(fn.node, ast.Lambda) or fn.name in maybe:
+                continue
+            for r in walk_body(fn.node):
+                if isinstance(r, ast.Return) and r.value is not None:
+                    if any(isinstance(x, ast.Name) and x.id == "UNRESOLVABLE" for x in ast.walk(r.value)) or any(isinstance(x, ast.Call) and last_attr(x) in maybe for x in ast.walk(r.value)):
+                        maybe.add(fn.name)
+                        changed = True
+                        break
+    chk.note(f"C10.R9: functions whose result may be the marker: {sorted(maybe)}")
+    for mod in P.modules.values():
+        std_names = {a.asname or a.name for n in ast.walk(mod.tree) if isinstance(n, ast.ImportFrom) and n.module in ("copy", "pickle") for a in n.names}
+        std_mods = {a.asname or a.name for n in ast.walk(mod.tree) if isinstance(n, ast.Import) for a in n.names if a.name in ("copy", "pickle")}
+        if not std_names and not std_mods:
+            continue
+        for fn in mod.functions.values():
+            if isinstance(fn.node, ast.Lambda):
+                continue
+            for c in body_calls(fn):
+                is_copy = (isinstance(c.func, ast.Name) and c.func.id in std_names) or (isinstance(c.func, ast.Attribute) and isinstance(c.func.value, ast.Name) and c.func.value.id in std_mods and c.func.attr in ("deepcopy", "copy", "dumps"))
+                if not is_copy or not c.args:
+                    continue
+                forms = canon(fn, c.args[0])
+                src = [x for f_ in forms for x in ast.walk(ast.parse(f_, mode="eval")) if isinstance(x, ast.Call) and last_attr(x) in maybe] if forms else []
+                construct = f"{fn.qualname.partition(':')[2]}: `{unparse(c, 70)}` does not copy a possible marker"
+                if src and not custom_copy:
+                    chk.violation("C10.R9", fn, construct,
+                                  f"the argument comes from `{unparse(src[0].func)}(...)`, which may return UNRESOLVABLE; the generic copier builds a NEW `Unresolvable` instance, every `is UNRESOLVABLE` guard lets it through and the marker object itself becomes the request body / parameter of the derived case (`TypeError: Object of type Unresolvable is not JSON serializable`) instead of the generated value",
+                                  fn.loc(c))
+                elif src:
+                    chk.ok("C10.R9", fn, construct, "the marker class controls its own copying", fn.loc(c))
+    if n_tests < 6:
+        chk.undecided("C10.R9", "<discovery>", f"sites={n_tests}", "fewer identity tests than confirmed by hand")
+
+
 def rules(tier: str) -> list:  # type: ignore[type-arg]
-    return [r1_exhaustive, r2_resolvability, r3_errors, r4_status_matching, r5_evaluate, rfwd_forwarding, r6_pointer_index, r7_responses_values_total, r8_node_tables]
+    return [r1_exhaustive, r2_resolvability, r3_errors, r4_status_matching, r5_evaluate, rfwd_forwarding, r6_pointer_index, r7_responses_values_total, r8_node_tables, r9_sentinel_identity]
